@@ -258,10 +258,9 @@ func (b Block) status() (class, reason string) {
 				return Reject, "bounds-of-unequal-length"
 			}
 			if bytes.Compare(e.Lo.S, e.Hi.S) > 0 {
-				if b.Kind.IsRangeMapping() {
-					return Reject, "low-above-high"
-				}
-				unspec = "reversed-codespace-range" // the property names only range mappings
+				// "a reversed range ... is rejected": the three kinds of range
+				// mappings and code space ranges alike
+				return Reject, "low-above-high"
 			}
 		}
 		if b.Kind.HasDst() && !DstAllowed(b.Kind, e.Dst.T) {
